@@ -223,6 +223,7 @@ def work(ctx, tier):
                     common.payload(sc, e, j, mode="reuse"),
                 )
     overlapping_calls(ctx, rng, (400 if tier == "quick" else 8000) // ctx.nshards)
+    common.reconfig_slice(ctx, tier, common.rng_for(ctx, "reconfig"), lambda sc, e: _one(ctx, sc, e, stats))
     if tier != "quick":
         common.repo_suite_under_monitors(ctx, "caps")
     common.flush_stats(ctx, stats)
@@ -240,6 +241,7 @@ def conclude(ctx):
     floors["runs_with_two_caps_tight"] = (ctx.cnt["runs_with_two_caps_tight"], 50)
     floors["overlap_nested_runs"] = (ctx.cnt["overlap_nested_runs"], 50)
     floors["overlap_async_runs"] = (ctx.cnt["overlap_async_runs"], 50)
+    floors["reconfigured_scenarios"] = (ctx.cnt["reconfigured_scenarios"], 80)
     floors["cap_accounts_checked_after_a_contained_callback_error"] = (ctx.cnt["cap_accounts_checked_after_a_contained_callback_error"], 200)
     return dict(
         rule=(
